@@ -195,3 +195,33 @@ val mod_node : z -> bool -> bool -> z -> z -> outcome
 val sh_cdiv : z -> z -> z
 
 val sh_cmod : z -> z -> z
+
+type divisor =
+| DRun
+| DNum of z
+| DOpaque
+
+val has_constant_result : divisor -> bool
+
+type variant = { zc : bool; oq : bool }
+
+val may_equal : variant -> divisor -> z -> bool
+
+type dcfg = { cdir : bool; cforced : bool }
+
+val zerodivision_check : variant -> dcfg -> divisor -> bool
+
+val min_division_check : variant -> dcfg -> bool -> bool -> divisor -> bool
+
+val c_operator : dcfg -> bool -> bool
+
+val decisions :
+  variant -> dcfg -> bool -> bool -> divisor -> ((bool * bool) * bool) * bool
+
+val div_stmt : variant -> dcfg -> z -> bool -> divisor -> z -> z -> outcome
+
+val mod_stmt : variant -> dcfg -> z -> bool -> divisor -> z -> z -> outcome
+
+val divmod_q : bool -> z -> bool -> z -> z -> outcome
+
+val divmod_r : bool -> z -> bool -> z -> z -> outcome
